@@ -265,7 +265,7 @@ def run(tier, seed, part=None):
     else:
         plans = [({"max_send": 6}, 10, 2), ({"max_send": 4, "pausing": True}, 9, 2), ({"max_send": 3, "pausing": True, "pol": ["I", "C", "C"]}, 9, 2),
                  ({"max_send": 5, "cat_idx": [0, 1, 0, 0, 1], "pol": ["I", "I", "N"]}, 9, 1)]
-        cap = 600
+        cap = 300
     for gen in (4, 5):
         for extra, depth, dev in plans:
             params = dict(gen=gen, **extra)
